@@ -102,8 +102,12 @@ def rand_spec(seed, allow_blocking=True, allow_buffer=True, allow_advance=True, 
         b = order[k]
         if not any(c["inp"] == f"n{b}" and not c["skip"] for c in conns):
             a = order[rnd.randrange(0, k)]
-            conns.append(dict(out=f"n{a}", inp=f"n{b}", window=rnd.randint(1, min(3, max_window)), skip=False, blocking=False,
-                              jitter="L", delay=cdelay()))
+            ex = [c for c in conns if c["out"] == f"n{a}" and c["inp"] == f"n{b}"]
+            if ex:  # a (skipped) forward edge is already there: un-skip it. A second connection between the same pair would
+                ex[0]["skip"] = False  # overwrite the sender's outputs entry (rex keys it by the receiver's name): API misuse
+            else:
+                conns.append(dict(out=f"n{a}", inp=f"n{b}", window=rnd.randint(1, min(3, max_window)), skip=False, blocking=False,
+                                  jitter="L", delay=cdelay()))
     sup = f"n{order[rnd.randrange(1, N)]}"  # supervisor always has a non-skipped input (never the first node)
     # the first node gets a skipped feedback edge (from the supervisor) if it has no input at all
     first = f"n{order[0]}"
